@@ -187,6 +187,17 @@ def apply_model(m: AclM, op: dict) -> Expect:  # noqa: C901
                 i += 1
             b.seq = b.rules[-1].seq if b.rules else 0
         return Expect(m, note=str(ret))
+    if k == "resequence_group":
+        if n and m.blocks[op["i"] % n].grouped and m.blocks[op["i"] % n].rules:
+            b = m.blocks[op["i"] % n]
+            err, nums, _, ret = reseq_predict([len(b.rules)], op["start"], op["step"])
+            if err:
+                return Expect(None, error=err)
+            for r, x in zip(b.rules, nums):
+                r.seq = x
+            # (the block's own number is given by the ACL's resequence only)
+            return Expect(m, note=str(ret))
+        return Expect(m)
     if k == "group":
         if op["prefix"]:
             m.group_by = op["prefix"]
